@@ -33,10 +33,19 @@ func newDiffState(oldMast *Mast, newMast *Mast) *diffState {
 	dc.alreadyNotifiedNewLink = map[uint8]interface{}{}
 	if oldMast != nil {
 		dc.oldMast = oldMast
-		dc.oldStack = newIterItemStack(iterItem{considerLink: oldMast.root})
+		dc.oldStack = rootItemStack(oldMast)
 	}
-	dc.newStack = newIterItemStack(iterItem{considerLink: newMast.root})
+	dc.newStack = rootItemStack(newMast)
 	return &dc
+}
+
+// rootItemStack starts a traversal at the tree's top node. An empty tree has no
+// nodes: its entry-less in-memory top node is a placeholder, not a node to report.
+func rootItemStack(m *Mast) iterItemStack {
+	if node, ok := m.root.(*mastNode); m.root == nil || (ok && node.isEmpty()) {
+		return iterItemStack{}
+	}
+	return newIterItemStack(iterItem{considerLink: m.root})
 }
 
 func (dc *diffState) resetCurrent() {
